@@ -7,3 +7,4 @@ import ChmpyVerif.Props.C12
 import ChmpyVerif.Props.C14
 import ChmpyVerif.Props.C16
 import ChmpyVerif.Props.C17
+import ChmpyVerif.Props.C20
